@@ -297,6 +297,7 @@ def explore(ctx):
             lterms.append('(%s, %s, %s, %s)' % (clist(c['vals'], copt), clist(labels), clist(list(d.trunk), coq_ntree),
                                                 tie.coq_structs(impl.structs_view(d2, tuple(c['shape'])))))
             lmeta.append(info)
+        special_files(ctx, tmpdir)
         big_cases(ctx, tmpdir)
         format_table(ctx, tmpdir)
     finally:
@@ -307,6 +308,62 @@ def explore(ctx):
         ctx.errors.extend(errs)
         for i in mism[:5]:
             ctx.tie_mismatch(proj, meta[i], None, None)
+
+
+def special_files(ctx, tmpdir):
+    """Round trips outside the integer model (oracle only): gzip-compressed FITS written and read by name alone, and
+    data containing +inf / -inf (heights are then written as inf)."""
+    rng = ctx.rng('c09-special')
+    for it in range(24 if ctx.quick else 240):
+        c = dc.tree_rich_case(rng, maxpix=24)
+        c['dtype'], c['scale'] = 'float64', 0
+        c.pop('den', None)
+        kind = rng.choice(['gz', 'gz', 'inf', 'inf', '-inf'])
+        arr = impl.case_array(dict(c, layout='C')).astype(float)
+        if kind in ('inf', '-inf'):
+            flat = arr.ravel()
+            for j in rng.sample(range(flat.size), min(flat.size, rng.randint(1, 2))):
+                if np.isfinite(np.delete(flat, j)).any():          # keep at least one number (as for all-NaN input)
+                    flat[j] = np.inf if kind == 'inf' else -np.inf
+        info = {'stream': 'special files', 'kind': kind, 'shape': list(arr.shape), 'data': arr.tolist()}
+        try:
+            kw = impl.compute_kwargs(c)
+            kw.pop('is_independent', None)
+            if kind == '-inf' and kw.get('min_value', 'min') == 'min':
+                kw['min_value'] = float(np.min(arr[np.isfinite(arr)])) - 1.0
+            d = Dendrogram.compute(arr, **kw)
+        except Exception as e:
+            ctx.oracle_failure(info, ['compute raised %r' % (e,)], {})
+            continue
+        for fmt, name in ((('fits', 'd.fits.gz'),) if kind == 'gz' else (('fits', 'd.fits'), ('hdf5', 'd.hdf5'))):
+            path = os.path.join(tmpdir, name)
+            ctx.count('special=%s/%s' % (kind, fmt))
+            try:
+                d.save_to(path)
+                d2 = Dendrogram.load_from(path)
+            except Exception as e:
+                ctx.oracle_failure(dict(info, file=name), ['save_to / load_from by name alone raised %r' % (e,)], {'exc': type(e).__name__})
+                continue
+            finally:
+                if os.path.exists(path):
+                    os.remove(path)
+            fails = []
+            a, b = np.asarray(d.data), np.asarray(d2.data)
+            if a.shape != b.shape or not np.array_equal(a, b, equal_nan=True):
+                fails.append('data differ after the round trip')
+            if not (np.asarray(d.index_map) == np.asarray(d2.index_map)).all():
+                fails.append('label map differs after the round trip')
+            v1, v2 = impl.structs_view(d, tuple(arr.shape)), impl.structs_view(d2, tuple(arr.shape))
+            if [(i, p_, ch, sorted(own)) for i, p_, ch, own in v1] != [(i, p_, ch, sorted(own)) for i, p_, ch, own in v2]:
+                fails.append('structures differ after the round trip')
+            for s in d:
+                t = d2[s.idx]
+                if (s.vmin, s.vmax, s.height) != (t.vmin, t.vmax, t.height) and not (s.height != s.height and t.height != t.height):
+                    fails.append('vmin/vmax/height of %d: %r -> %r' % (s.idx, (s.vmin, s.vmax, s.height), (t.vmin, t.vmax, t.height)))
+                    break
+            ctx.case_done(None, ('special', kind, fmt, it) if len(d) >= 2 else None)
+            if fails:
+                ctx.oracle_failure(dict(info, file=name), fails, {})
 
 
 def big_cases(ctx, tmpdir):
